@@ -123,19 +123,19 @@ def _cyclic_core_fixpoint_recursive(x, y, path_cost, bab, fol):
     assert y_floors | ~ e == fol.true
     _assert_are_covers(xt, mincovers_core, bab, fol)
     _assert_covers_from(mincovers_core, yt, fol)
-    _assert_uniform_cardinality(mincovers_core, fol)
+    _assert_uniform_cardinality(mincovers_core, fol, bab.p_vars)
     mincovers_floor = _mincovers_from_floor(
         mincovers_core, xt, y_floors, bab, fol)
     assert mincovers_floor
     _assert_are_covers(xt, mincovers_floor, bab, fol)
     _assert_covers_from(mincovers_floor, y_floors, fol)
-    _assert_uniform_cardinality(mincovers_floor, fol)
+    _assert_uniform_cardinality(mincovers_floor, fol, bab.p_vars)
     mincovers = _mincovers_from_unfloor(
         mincovers_floor, yold, bab, fol)
     assert mincovers
     _assert_are_covers(xold, mincovers, bab, fol)
     _assert_covers_from(mincovers, yold, fol)
-    _assert_uniform_cardinality(mincovers, fol)
+    _assert_uniform_cardinality(mincovers, fol, bab.p_vars)
     log.info('==== cyclic core ====\n')
     return mincovers
 
@@ -183,14 +183,17 @@ def _assert_covers_from(covers, y, fol):
         assert y | ~ cover == fol.true
 
 
-def _assert_uniform_cardinality(bdds, fol):
-    """Assert that each element of `bdds` has the same count of assignments."""
+def _assert_uniform_cardinality(bdds, fol, care_vars=None):
+    """Assert that each element of `bdds` has the same count of assignments.
+
+    The assignments are counted over `care_vars`.
+    """
     if not bdds:
         return
-    n = fol.count(next(iter(bdds)))
+    n = fol.count(next(iter(bdds)), care_vars=care_vars)
     assert n >= 0, n
     for u in bdds:
-        n_ = fol.count(u)
+        n_ = fol.count(u, care_vars=care_vars)
         assert n == n_, (n, n_)
 
 
@@ -300,14 +303,14 @@ def _enumerate_mincovers_unfloor(
     @rtype:
         `set` of BDD nodes
     """
-    lm = list(_pick_iter_as_bdd(cover_from_floors, fol))
+    lm = list(_pick_iter_as_bdd(cover_from_floors, fol, prm.p_vars))
     n = len(lm)
     assert n >= 1, n
     mincovers_above = set()
     partials = {fol.false}
     while partials:
         partial_cover = partials.pop()
-        i = fol.count(partial_cover)
+        i = fol.count(partial_cover, care_vars=prm.p_vars)
         assert i <= n, (i, n)
         if i == n:
             mincovers_above.add(partial_cover)
@@ -316,10 +319,10 @@ def _enumerate_mincovers_unfloor(
         k = i + 1
         yfloor = lm[k - 1]
         succ = _y_unfloor(yfloor, y, prm, fol)
-        for z in _pick_iter_as_bdd(succ, fol):
+        for z in _pick_iter_as_bdd(succ, fol, prm.p_vars):
             assert z != fol.false
             new_cover = partial_cover | z
-            k_ = fol.count(new_cover)
+            k_ = fol.count(new_cover, care_vars=prm.p_vars)
             # This assertion ensures that cardinality of
             # the cover is preserved (injective mapping).
             assert k == k_, (k, k_)
@@ -351,14 +354,14 @@ def _enumerate_mincovers_below_set_based(
     """
     # cover_from_max => y
     assert y | ~ cover_from_max == fol.true
-    lm = list(_pick_iter_as_bdd(cover_from_max, fol))
+    lm = list(_pick_iter_as_bdd(cover_from_max, fol, prm.p_vars))
     n = len(lm)
     assert n >= 1, n
     mincovers_below = set()
     partials = {fol.false}
     while partials:
         partial_cover = partials.pop()
-        i = fol.count(partial_cover)
+        i = fol.count(partial_cover, care_vars=prm.p_vars)
         assert i <= n, (i, n)
         if i == n:
             mincovers_below.add(partial_cover)
@@ -369,13 +372,13 @@ def _enumerate_mincovers_below_set_based(
         ymax = lm[k - 1]
         assert y | ~ ymax == fol.true
         cover = partial_cover | _lm_tail(k, lm)
-        n_ = fol.count(cover)
+        n_ = fol.count(cover, care_vars=prm.p_vars)
         assert n == n_, (n, n_)
         succ = _below_and_suff(ymax, cover, x, y, prm, fol)
-        for z in _pick_iter_as_bdd(succ, fol):
+        for z in _pick_iter_as_bdd(succ, fol, prm.p_vars):
             assert z != fol.false
             new_cover = partial_cover | z
-            k_ = fol.count(new_cover)
+            k_ = fol.count(new_cover, care_vars=prm.p_vars)
             assert k == k_, (k, k_)
             partials.add(new_cover)
     assert mincovers_below
@@ -395,14 +398,14 @@ def _enumerate_mincovers_below(
     # cover_from_max => y
     assert y | ~ cover_from_max == fol.true
     # arrange cover in a fixed order
-    lm = list(_pick_iter_as_bdd(cover_from_max, fol))
+    lm = list(_pick_iter_as_bdd(cover_from_max, fol, prm.p_vars))
     n = len(lm)
     assert n >= 1, n
     mincovers_below = set()
     stack = [fol.false]
     while stack:
         partial_cover = stack.pop()
-        i = fol.count(partial_cover)
+        i = fol.count(partial_cover, care_vars=prm.p_vars)
         assert i <= n, (i, n)
         # action `Collect`
         if i == n:
@@ -416,20 +419,22 @@ def _enumerate_mincovers_below(
         assert y | ~ ymax == fol.true
         patch = _lm_tail(k, lm)
         cover = partial_cover | patch
-        assert fol.count(cover) == n, fol.count(cover)
+        assert fol.count(cover, care_vars=prm.p_vars) == n, fol.count(cover, care_vars=prm.p_vars)
         succ = _below_and_suff(
             ymax, cover, x, y, prm, fol)
-        for z in _pick_iter_as_bdd(succ, fol):
+        for z in _pick_iter_as_bdd(succ, fol, prm.p_vars):
             assert z != fol.false
             new_cover = partial_cover | z
-            assert fol.count(new_cover) == k, fol.count(new_cover)
+            assert fol.count(new_cover, care_vars=prm.p_vars) == k, fol.count(new_cover, care_vars=prm.p_vars)
             stack.append(new_cover)
     assert mincovers_below
     return mincovers_below
 
 
-def _pick_iter_as_bdd(u, fol):
-    """Return generator of BDDs from `pick_iter(u)`.
+def _pick_iter_as_bdd(u, fol, care_vars=None):
+    """Return generator of BDDs from `pick_iter(u, care_vars)`.
+
+    Each BDD represents a single assignment to `care_vars`.
 
     @param u:
         BDD node
@@ -438,7 +443,7 @@ def _pick_iter_as_bdd(u, fol):
     @rtype:
         generator of BDD nodes
     """
-    for d in fol.pick_iter(u):
+    for d in fol.pick_iter(u, care_vars=care_vars):
         yield fol.assign_from(d)
 
 
